@@ -61,6 +61,7 @@ type Engine struct {
 	OnLoop    func(e *Engine, fr *frame, l *loopInfo)
 	Unknown   []string // constructs the engine does not model (reported as undecided)
 	wrapAtoms map[string]Atom
+	dynThr    map[*ssa.Function]map[int64]bool
 	selfRec   map[*ssa.Function]bool
 	SummarisedRecursive map[string]int // self-recursive functions summarised at call sites (they must be analysed as roots)
 	cellKeys  []string
